@@ -1063,6 +1063,10 @@ class FnTranslator:
             return '__CPROVER_assert(%s, "%s")' % (x, name)
         if decl.get('kind') in ('CXXMethodDecl', 'CXXConversionDecl') and decl.get('storageClass') != 'static':
             return self.member_call(decl, ch[0], args, n)
+        if name == 'sqrt' and decl.get('mangledName') == 'sqrt' and decl['type']['qualType'].startswith('double (double)'):
+            # the C library's sqrt (std::sqrt(double) is `using ::sqrt`): external, assumed contract
+            self.ex.externals.add('vf_sqrt')
+            return 'vf_sqrt(%s)' % self.expr(args[0])
         cn = self.ex.require_node(decl)
         ax = self.args_for(decl, args, n)
         call = '%s(%s)' % (cn, ', '.join(ax))
